@@ -133,10 +133,26 @@ def r1(ctx):
         ctx.violation("depth/canonical", ctx.where(VISIT_DIR), "the level must be computed from the canonical path of the listed directory")
 
 
+_DESCENT_FLAGS = set()
+
+
+def _note_descent_flag(hir):
+    """the boolean local that stands next to ok_to_visit_dir in the descent condition ("this entry is, or leads to, a directory"),
+    whatever it is called: where it becomes true is C18-R1's business (the enabling sites of the flag)"""
+    for x in walk_exprs(hir):
+        if x["k"] == "If" and x["c"]["k"] != "LetE":
+            cs = conjuncts(x["c"])
+            if any(c["k"] == "MCall" and c["m"] == "ok_to_visit_dir" for c in cs):
+                for c in cs:
+                    c = peel(c, methods=False)
+                    if c["k"] == "Path" and c.get("rk") == "Local":
+                        _DESCENT_FLAGS.add(render(c))
+
+
 def _descent_cond_ok(rc):
     """reviewed conditions under which a directory entry is entered (rendered atom)"""
     flat = rc.replace("(", "").replace(")", "")
-    return rc == "pass_ignores" or ("depth" in rc and "max" in rc) or ("depth" in rc and "min" in rc) or rc.startswith("let Result::Ok(file_type)") or \
+    return rc in _DESCENT_FLAGS or rc == "pass_ignores" or ("depth" in rc and "max" in rc) or ("depth" in rc and "min" in rc) or rc.startswith("let Result::Ok(file_type)") or \
         rc.startswith("let Result::Ok(entry)") or rc == "ok" or rc.startswith("self.ok_to_visit_dir(") or flat.startswith("traversal_mode ==") or \
         flat.startswith("traversal_mode !=") or flat.startswith("!traversal_mode") or "is_dir_like" == rc
 
@@ -144,6 +160,7 @@ def _descent_cond_ok(rc):
 def r2(ctx):
     """no unlisted skip: inside the directory loop every entry reaches check_file unless a listed condition holds"""
     hir = ctx.anchor_hir(VISIT_DIR)
+    _note_descent_flag(hir)
     sites = entry_check_site(hir)
     if len(sites) != 1:
         ctx.violation("anchor/check_file-site", VISIT_DIR, "expected one check_file(entry, None) site")
@@ -550,6 +567,7 @@ def r7(ctx):
     exhaustion, the LIMIT stop (exactness decided by C06), propagation of a closed output.  Anything else (`continue`
     after the archive block, an early `break`) drops the descent into, or the siblings after, some entry."""
     h = ctx.anchor_hir(VISIT_DIR)
+    _note_descent_flag(h)
     n = 0
     for x in walk_exprs(h):
         if x["k"] not in ("Continue", "Break", "Ret"):
